@@ -36,17 +36,41 @@ LastKind(b) == IF b.units = <<>> THEN "" ELSE b.units[Len(b.units)].k
 (* KF-C02-1: no function tables; an end-of-block label of a block edited   *)
 (* at its end is re-homed to the start of the next block (never re-joined: *)
 (* in_same_function(None, None) is False) and then follows that block to a *)
-(* proxy when it is deleted with retarget_to_proxy.                        *)
+(* proxy when it is deleted with retarget_to_proxy.  With function tables  *)
+(* the same happens when the edit at the end is the insertion of a patch   *)
+(* that ends in a label (the continuation is not re-joined then either);   *)
+(* that label itself follows to the proxy as well (KF_C02_1_PatchLabels).  *)
 (***************************************************************************)
+TrailingLabelAtEndOf(X, b) ==
+  \E r \in Range(X.t.reqs) : /\ r.op = "ins" /\ r.u = b.u /\ r.off = b.n
+                              /\ \E l \in Range(r.patch.labels) : l.o = r.patch.n
 KF_C02_1_Sym(X, name) ==
   \E b \in Range(AllBlocks(X.t.pre)) :
      /\ name \in Range(b.es)
-     /\ b.fn = <<>> /\ b.k = "code"
+     /\ (b.fn = <<>> \/ TrailingLabelAtEndOf(X, b)) /\ b.k = "code"
      /\ ~WholeDeleted(X.t.pre, X.t.reqs, b.u)
      /\ TouchesEnd(X.t.pre, X.t.reqs, b.u)
      /\ NextBlockU(X.t.pre, b.u) # 0
      /\ LabelsToProxy(X.t.pre, X.t.reqs, NextBlockU(X.t.pre, b.u))
      /\ name \in ObsProxied(X)
+
+\* the trailing labels of patches inserted at the end of a block whose successor goes
+\* to a proxy: [exp fact, base name]
+KF_C02_1_PatchLabels(X) ==
+  LET rs == {r \in Range(X.t.reqs) :
+               /\ r.op = "ins" /\ r.off = BlockByU(X.t.pre, r.u).n
+               /\ NextBlockU(X.t.pre, r.u) # 0
+               /\ LabelsToProxy(X.t.pre, X.t.reqs, NextBlockU(X.t.pre, r.u))}
+      facts(r) == LET nm == SecOfBlock(X.t.pre, r.u).name
+                      L == X.E[nm]
+                      P == X.P[nm]
+                      tl == {l.nm : l \in {x \in Range(r.patch.labels) : x.o = r.patch.n}}
+                  IN  {[n |-> L[k].base, s |-> nm, p |-> P[k]] :
+                          k \in {j \in DOMAIN L : L[j].t = "lbl" /\ L[j].src = "patch" /\ L[j].rid = r.id /\ L[j].nm \in tl}}
+  IN  UNION {facts(r) : r \in rs}
+ObsProxiedPatchBases(X) ==
+  {X.t.post.syms[i].b : i \in {j \in DOMAIN X.t.post.syms :
+      X.t.post.syms[j].k = "proxy" /\ X.t.post.syms[j].n \notin PreSymNames(X)}}
 
 (***************************************************************************)
 (* KF-C02-2  Several insertions at the END of one block (offset = size):   *)
@@ -274,10 +298,14 @@ KfTags(X, K, clause) ==
          LET tm == TrailingMoved(X)
              missing == ExpPatchSymFacts(X) \ ObsPatchSymFacts(X)
              extra == ObsPatchSymFacts(X) \ ExpPatchSymFacts(X)
+             pl == KF_C02_1_PatchLabels(X)
          IN  IF /\ tm # {}
                 /\ missing \subseteq {x.exp : x \in tm}
                 /\ extra \subseteq {x.moved : x \in tm}
-             THEN {"KF-C02-2"} ELSE {}
+             THEN {"KF-C02-2"}
+             ELSE IF /\ pl # {} /\ extra = {} /\ missing \subseteq pl
+                     /\ \A f \in missing : f.n \in ObsProxiedPatchBases(X)
+             THEN {"KF-C02-1"} ELSE {}
     \* KF-C02-2 seen through the CFG: a branch to the moved label lands behind the later patches
     [] clause = "C03_BranchCall" ->
          LET tm == TrailingMoved(X)
